@@ -7,180 +7,297 @@ C18 — property theorems (nothing but property theorems and their non-vacuity e
 namespace Frappy.Props.C18
 open Frappy.Spec.C18 Frappy.Scan
 
-/-! ## controllers of one output -/
+/-! ## controllers of the outputs of a node -/
 
 section control
 open Frappy.Control
 
-/-- one operation, from any state in which at most one input is marked and the output names it: the same
-holds afterwards, and an operation that takes over control leaves exactly the new controller marked, named
-by the output — the previous one is switched off -/
-theorem control_step (n : Nat) (s : St) (op : Op) (h : SingleController n s.cb s.act) :
-    SingleController n (step1 n s op).cb (step1 n s op).act ∧
-    TakenOver n (takeoverOf n s.act op) (step1 n s op).cb (step1 n s op).act := by
-  have single_of_named : ∀ (cb : Option Nat) (act : Nat → Bool),
-      (∀ i, i < n → act i = true → cb = some i) → SingleController n cb act := by
-    intro cb act hb
-    refine ⟨fun i hi j hj hai haj => ?_, hb⟩
-    have := (hb i hi hai).symm.trans (hb j hj haj)
-    exact Option.some.inj this
-  have hact : ∀ k, k < n →
-      SingleController n (activate n k { s with evs := [], ok := true }).cb (activate n k { s with evs := [], ok := true }).act ∧
-      TakenOver n (.byInput k) (activate n k { s with evs := [], ok := true }).cb
-        (activate n k { s with evs := [], ok := true }).act := by
-    intro k _
-    refine ⟨single_of_named _ _ ?_, ?_⟩
-    · intro i hi hai
-      rw [activate_act _ _ _ _ hi] at hai
-      rw [activate_cb]; simp at hai; rw [hai]
-    · refine ⟨activate_cb .., fun i hi => ?_⟩
-      rw [activate_act _ _ _ _ hi]; simp
-  have hself : SingleController n (selfControlled n { s with evs := [], ok := true }).cb
-        (selfControlled n { s with evs := [], ok := true }).act ∧
-      TakenOver n .bySelf (selfControlled n { s with evs := [], ok := true }).cb
-        (selfControlled n { s with evs := [], ok := true }).act := by
-    have hall : ∀ i, i < n → (selfControlled n { s with evs := [], ok := true }).act i = false := by
-      intro i hi
-      cases hc : s.cb with
-      | none =>
-        rw [selfControlled_none _ _ (by simp)]
-        cases ha : s.act i with
-        | false => simp
-        | true => have := h.2 i hi ha; rw [hc] at this; cases this
-      | some c => exact selfControlled_act n _ c (by simp) i hi
-    refine ⟨single_of_named _ _ ?_, selfControlled_cb .., hall⟩
-    intro i hi hai; rw [hall i hi] at hai; cases hai
+theorem allSingle_of_named (n nout : Nat) (outOf : Nat → Nat) (cb : Nat → Option Nat) (act : Nat → Bool)
+    (hb : ∀ o, o < nout → ∀ i, i < n → outOf i = o → act i = true → cb o = some i) : AllSingle n nout outOf cb act := by
+  intro o ho
+  refine ⟨fun i hi j hj hall => ?_, hb o ho⟩
+  obtain ⟨h1, h2, h3, h4⟩ := hall
+  exact Option.some.inj ((hb o ho i hi h1 h3).symm.trans (hb o ho j hj h2 h4))
+
+theorem untouched_refl (n nout : Nat) (outOf : Nat → Nat) (o : Nat) (cb : Nat → Option Nat) (act : Nat → Bool) :
+    OthersUntouched n nout outOf o cb cb act act := ⟨fun _ _ _ => rfl, fun _ _ _ => rfl⟩
+
+theorem activate_ok (cfg : Cfg) (k : Nat) (s : St) (h : AllSingle cfg.n cfg.nout cfg.outOf s.cb s.act) :
+    AllSingle cfg.n cfg.nout cfg.outOf (activate cfg k s).cb (activate cfg k s).act ∧
+    TakenOver cfg.n cfg.outOf (.byInput k) (activate cfg k s).cb (activate cfg k s).act ∧
+    OthersUntouched cfg.n cfg.nout cfg.outOf (cfg.outOf k) s.cb (activate cfg k s).cb s.act (activate cfg k s).act := by
+  refine ⟨allSingle_of_named _ _ _ _ _ ?_, ⟨?_, ?_⟩, ⟨?_, ?_⟩⟩
+  · intro o ho i hi hio hai
+    rw [activate_act] at hai
+    rw [activate_cb]
+    by_cases hik : i = k
+    · subst hik; simp [hio]
+    · simp only [hik, if_false] at hai
+      by_cases hsame : cfg.outOf i = cfg.outOf k
+      · simp [hi, hsame] at hai
+      · have hne : ¬ o = cfg.outOf k := by rw [← hio]; exact hsame
+        simp only [hne, if_false]
+        have hsa : s.act i = true := by simpa [hsame] using hai
+        exact (h o ho).2 i hi hio hsa
+  · rw [activate_cb]; simp
+  · intro i hi hio
+    rw [activate_act]
+    by_cases hik : i = k
+    · simp [hik]
+    · simp [hik, hi, hio]
+  · intro o' _ hne
+    rw [activate_cb]; simp [hne]
+  · intro i _ hne
+    rw [activate_act]
+    have hik : ¬ i = k := by intro e; rw [e] at hne; exact hne rfl
+    simp [hik, hne]
+
+theorem selfControlled_ok (cfg : Cfg) (o0 : Nat) (s : St) (h : AllSingle cfg.n cfg.nout cfg.outOf s.cb s.act)
+    (ho0 : o0 < cfg.nout) :
+    AllSingle cfg.n cfg.nout cfg.outOf (selfControlled cfg o0 s).cb (selfControlled cfg o0 s).act ∧
+    TakenOver cfg.n cfg.outOf (.bySelf o0) (selfControlled cfg o0 s).cb (selfControlled cfg o0 s).act ∧
+    OthersUntouched cfg.n cfg.nout cfg.outOf o0 s.cb (selfControlled cfg o0 s).cb s.act (selfControlled cfg o0 s).act := by
+  have hoff : ∀ i, i < cfg.n → cfg.outOf i = o0 → (selfControlled cfg o0 s).act i = false := by
+    intro i hi hio
+    rw [selfControlled_act]
+    by_cases hc : s.cb o0 = none
+    · simp only [hc, ne_eq, not_true_eq_false, false_and, if_false]
+      cases ha : s.act i with
+      | false => rfl
+      | true => have := (h o0 ho0).2 i hi hio ha; rw [hc] at this; cases this
+    · simp [hc, hi, hio]
+  refine ⟨allSingle_of_named _ _ _ _ _ ?_, ⟨?_, hoff⟩, ⟨?_, ?_⟩⟩
+  · intro o ho i hi hio hai
+    by_cases hoo : o = o0
+    · rw [hoff i hi (hio.trans hoo)] at hai; cases hai
+    · rw [selfControlled_cb]; simp only [hoo, if_false]
+      rw [selfControlled_act] at hai
+      have hne : ¬ cfg.outOf i = o0 := by rw [hio]; exact hoo
+      simp only [hne, and_false, if_false] at hai
+      exact (h o ho).2 i hi hio hai
+  · rw [selfControlled_cb]; simp
+  · intro o' _ hne
+    rw [selfControlled_cb]; simp [hne]
+  · intro i _ hne
+    rw [selfControlled_act]; simp [hne]
+
+/-- one operation, from any state in which every output has at most one marked input and names it: the same holds
+afterwards; an operation that takes over control of an output leaves exactly the new controller marked among the
+inputs of that output, named by it — the previous one is switched off; and nothing of another output changes -/
+theorem control_step (cfg : Cfg) (s : St) (op : Op) (h : AllSingle cfg.n cfg.nout cfg.outOf s.cb s.act) :
+    AllSingle cfg.n cfg.nout cfg.outOf (step1 cfg s op).cb (step1 cfg s op).act ∧
+    TakenOver cfg.n cfg.outOf (takeoverOf cfg s.act op) (step1 cfg s op).cb (step1 cfg s op).act ∧
+    OthersUntouched cfg.n cfg.nout cfg.outOf (targetOf cfg op) s.cb (step1 cfg s op).cb s.act (step1 cfg s op).act := by
+  have same : AllSingle cfg.n cfg.nout cfg.outOf s.cb s.act ∧ TakenOver cfg.n cfg.outOf .no s.cb s.act ∧
+      OthersUntouched cfg.n cfg.nout cfg.outOf (targetOf cfg op) s.cb s.cb s.act s.act :=
+    ⟨h, trivial, untouched_refl ..⟩
+  have hact : ∀ k, _ := fun k => activate_ok cfg k { s with evs := [], ok := true } h
+  have hself : ∀ o, o < cfg.nout → _ := fun o ho => selfControlled_ok cfg o { s with evs := [], ok := true } h ho
   cases op with
   | writeIn k guarded =>
-    simp only [step1, step, takeoverOf]
-    by_cases hk : k < n
+    simp only [step1, step, takeoverOf, targetOf]
+    by_cases hk : validIn cfg k = true
     · simp only [hk, if_true]
       by_cases hg : (guarded && s.act k) = true
-      · simp only [hg, if_true]; exact ⟨h, trivial⟩
-      · simp only [hg]; exact hact k hk
-    · simp only [hk, if_false]; exact ⟨h, trivial⟩
-  | writeOut => exact hself
+      · simp only [hg, if_true]; exact same
+      · simp only [hg]; exact hact k
+    · simp only [hk]; exact same
+  | writeOut o =>
+    simp only [step1, step, takeoverOf, targetOf]
+    by_cases ho : o < cfg.nout
+    · simp only [ho, if_true]; exact hself o ho
+    · simp only [ho, if_false]; exact same
   | activate k =>
-    simp only [step1, step, takeoverOf]
-    by_cases hk : k < n
-    · simp only [hk, if_true]; exact hact k hk
-    · simp only [hk, if_false]; exact ⟨h, trivial⟩
+    simp only [step1, step, takeoverOf, targetOf]
+    by_cases hk : validIn cfg k = true
+    · simp only [hk, if_true]; exact hact k
+    · simp only [hk]; exact same
   | deactivate k =>
-    simp only [step1, step, takeoverOf]
-    by_cases hk : k < n
+    simp only [step1, step, takeoverOf, targetOf]
+    by_cases hk : validIn cfg k = true
     · simp only [hk, if_true]
-      refine ⟨single_of_named _ _ ?_, trivial⟩
-      intro i hi hai
-      rw [deactivate_act] at hai
-      rw [deactivate_cb]
-      by_cases hik : i = k
-      · simp [hik] at hai
-      · simp only [hik, if_false] at hai; exact h.2 i hi hai
-    · simp only [hk, if_false]; exact ⟨h, trivial⟩
-  | selfControlled => exact hself
-  | updateTarget k =>
-    simp only [step1, step, takeoverOf]
-    by_cases hk : k < n
-    · simp only [hk, if_true]; exact ⟨h, trivial⟩
-    · simp only [hk, if_false]; exact ⟨h, trivial⟩
+      refine ⟨allSingle_of_named _ _ _ _ _ ?_, trivial, ⟨fun _ _ _ => by simp, ?_⟩⟩
+      · intro o ho i hi hio hai
+        rw [deactivate_act] at hai
+        rw [deactivate_cb]
+        by_cases hik : i = k
+        · simp [hik] at hai
+        · simp only [hik, if_false] at hai; exact (h o ho).2 i hi hio hai
+      · intro i _ hne
+        rw [deactivate_act]
+        have hik : ¬ i = k := by intro e; rw [e] at hne; exact hne rfl
+        simp [hik]
+    · simp only [hk]; exact same
+  | selfControlled o =>
+    simp only [step1, step, takeoverOf, targetOf]
+    by_cases ho : o < cfg.nout
+    · simp only [ho, if_true]; exact hself o ho
+    · simp only [ho, if_false]; exact same
+  | updateTarget o k =>
+    simp only [step1, step, takeoverOf, targetOf]
+    split <;> exact same
+
+theorem allSingle_init (cfg : Cfg) : AllSingle cfg.n cfg.nout cfg.outOf init.cb init.act :=
+  allSingle_of_named _ _ _ _ _ (fun _ _ i _ _ hi => by simp [init] at hi)
 
 /-- after every history the invariant holds -/
-theorem control_exec (n : Nat) (ops : List Op) : ∀ s, SingleController n s.cb s.act →
-    SingleController n (exec n s ops).cb (exec n s ops).act := by
+theorem control_exec (cfg : Cfg) (ops : List Op) : ∀ s, AllSingle cfg.n cfg.nout cfg.outOf s.cb s.act →
+    AllSingle cfg.n cfg.nout cfg.outOf (exec cfg s ops).cb (exec cfg s ops).act := by
   induction ops with
   | nil => intro s h; exact h
-  | cons op ops ih => intro s h; exact ih _ (control_step n s op h).1
+  | cons op ops ih => intro s h; exact ih _ (control_step cfg s op h).1
 
-/-- **single_controller** — for every history of client writes (to an input's target, to the output's
-target) and driver-side calls (`activate_control`, `deactivate_control`, `self_controlled`,
-`update_target`) on `n` inputs of one output, at every quiescent point at most one input is marked as
-controlling and the output names exactly that one. -/
-theorem single_controller (n : Nat) (ops : List Op) :
-    ∀ s ∈ run n init ops, SingleController n s.cb s.act := by
+/-- **single_controller** — for every wiring (any number of outputs, each with any number of inputs) and every history
+of client writes (to an input's target, to an output's target) and driver-side calls (`activate_control`,
+`deactivate_control`, `self_controlled`, `update_target`), at every quiescent point every output has at most one
+input marked as controlling and names exactly that one. -/
+theorem single_controller (cfg : Cfg) (ops : List Op) :
+    ∀ s ∈ run cfg init ops, AllSingle cfg.n cfg.nout cfg.outOf s.cb s.act := by
   intro s hs
   obtain ⟨pre, op, post, _, rfl⟩ := mem_scan _ _ _ _ hs
-  have hinit : SingleController n init.cb init.act := ⟨fun i _ j _ hi _ => by simp [init] at hi, fun i _ hi => by simp [init] at hi⟩
-  exact (control_step n _ op (control_exec n pre init hinit)).1
+  exact (control_step cfg _ op (control_exec cfg pre init (allSingle_init cfg))).1
 
-/-- **takeover_switches_off** — after every history, an operation by which input `k` (or the output itself)
-takes over control leaves exactly `k` (nobody) marked and `k` (`self`) named by the output: the previous
-controller is switched off. -/
-theorem takeover_switches_off (n : Nat) (ops : List Op) (op : Op) :
-    TakenOver n (takeoverOf n (exec n init ops).act op) (exec n init (ops ++ [op])).cb (exec n init (ops ++ [op])).act := by
-  have hinit : SingleController n init.cb init.act := ⟨fun i _ j _ hi _ => by simp [init] at hi, fun i _ hi => by simp [init] at hi⟩
-  have := (control_step n _ op (control_exec n ops init hinit)).2
+/-- **takeover_switches_off** — after every history, an operation by which input `k` (or an output itself) takes
+over control of an output leaves exactly `k` (nobody) marked among the inputs of that output and `k` (`self`) named by
+it: the previous controller is switched off. -/
+theorem takeover_switches_off (cfg : Cfg) (ops : List Op) (op : Op) :
+    TakenOver cfg.n cfg.outOf (takeoverOf cfg (exec cfg init ops).act op)
+      (exec cfg init (ops ++ [op])).cb (exec cfg init (ops ++ [op])).act := by
+  have := (control_step cfg _ op (control_exec cfg ops init (allSingle_init cfg))).2.1
   simpa [exec, List.foldl_append] using this
 
-/-- the stronger reading is preserved by every operation except a direct `deactivate_control` call -/
-theorem names_active_step (n : Nat) (s : St) (op : Op) (hop : ∀ k, op ≠ .deactivate k)
-    (hn : NamesActive n s.cb s.act) :
-    NamesActive n (step1 n s op).cb (step1 n s op).act := by
-  have hact : ∀ k, k < n → NamesActive n (activate n k { s with evs := [], ok := true }).cb
-      (activate n k { s with evs := [], ok := true }).act := by
+/-- **outputs_independent** — the frame condition: after every history, an operation on output `o` (a write to it or to
+one of its inputs, a call of one of their control methods) changes neither `controlled_by` of another output nor
+`control_active` of an input attached to another output. -/
+theorem outputs_independent (cfg : Cfg) (ops : List Op) (op : Op) :
+    OthersUntouched cfg.n cfg.nout cfg.outOf (targetOf cfg op) (exec cfg init ops).cb (exec cfg init (ops ++ [op])).cb
+      (exec cfg init ops).act (exec cfg init (ops ++ [op])).act := by
+  have := (control_step cfg _ op (control_exec cfg ops init (allSingle_init cfg))).2.2
+  simpa [exec, List.foldl_append] using this
+
+/-- the stronger reading for output `o` is preserved by every operation except a direct `deactivate_control` call on one
+of its inputs -/
+theorem names_active_step (cfg : Cfg) (s : St) (op : Op) (o : Nat)
+    (hop : ∀ k, op = .deactivate k → cfg.outOf k ≠ o)
+    (hn : NamesActive cfg.n cfg.outOf o (s.cb o) s.act) :
+    NamesActive cfg.n cfg.outOf o ((step1 cfg s op).cb o) (step1 cfg s op).act := by
+  have hact : ∀ k, validIn cfg k = true → NamesActive cfg.n cfg.outOf o
+      ((activate cfg k { s with evs := [], ok := true }).cb o) (activate cfg k { s with evs := [], ok := true }).act := by
     intro k hk c hc
+    have hkn : k < cfg.n := by simp [validIn] at hk; exact hk.1
     rw [activate_cb] at hc
-    have : k = c := Option.some.inj hc
-    subst this
-    exact ⟨hk, by rw [activate_act _ _ _ _ hk]; simp⟩
-  have hself : NamesActive n (selfControlled n { s with evs := [], ok := true }).cb
-      (selfControlled n { s with evs := [], ok := true }).act := by
-    intro c hc; rw [selfControlled_cb] at hc; cases hc
+    by_cases ho : o = cfg.outOf k
+    · simp only [ho, if_true, Option.some.injEq] at hc
+      subst hc
+      exact ⟨hkn, ho.symm, by rw [activate_act]; simp⟩
+    · simp only [ho, if_false] at hc
+      obtain ⟨h1, h2, h3⟩ := hn c hc
+      refine ⟨h1, h2, ?_⟩
+      rw [activate_act]
+      have hne : ¬ cfg.outOf c = cfg.outOf k := by rw [h2]; exact ho
+      have hck : ¬ c = k := by intro e; rw [e] at hne; exact hne rfl
+      simp [hck, hne, h3]
+  have hself : ∀ o0, NamesActive cfg.n cfg.outOf o
+      ((selfControlled cfg o0 { s with evs := [], ok := true }).cb o) (selfControlled cfg o0 { s with evs := [], ok := true }).act := by
+    intro o0 c hc
+    rw [selfControlled_cb] at hc
+    by_cases ho : o = o0
+    · simp [ho] at hc
+    · simp only [ho, if_false] at hc
+      obtain ⟨h1, h2, h3⟩ := hn c hc
+      refine ⟨h1, h2, ?_⟩
+      rw [selfControlled_act]
+      have hne : ¬ cfg.outOf c = o0 := by rw [h2]; exact ho
+      simp [hne, h3]
   cases op with
   | writeIn k guarded =>
     simp only [step1, step]
-    by_cases hk : k < n
+    by_cases hk : validIn cfg k = true
     · simp only [hk, if_true]
       by_cases hg : (guarded && s.act k) = true
       · simp only [hg, if_true]; exact hn
       · simp only [hg]; exact hact k hk
-    · simp only [hk, if_false]; exact hn
-  | writeOut => exact hself
+    · simp only [hk]; exact hn
+  | writeOut o0 =>
+    simp only [step1, step]
+    split
+    · exact hself o0
+    · exact hn
   | activate k =>
     simp only [step1, step]
-    by_cases hk : k < n
+    by_cases hk : validIn cfg k = true
     · simp only [hk, if_true]; exact hact k hk
-    · simp only [hk, if_false]; exact hn
-  | deactivate k => exact absurd rfl (hop k)
-  | selfControlled => exact hself
-  | updateTarget k =>
+    · simp only [hk]; exact hn
+  | deactivate k =>
     simp only [step1, step]
-    by_cases hk : k < n
-    · simp only [hk, if_true]; exact hn
-    · simp only [hk, if_false]; exact hn
+    by_cases hk : validIn cfg k = true
+    · simp only [hk, if_true]
+      intro c hc
+      rw [deactivate_cb] at hc
+      obtain ⟨h1, h2, h3⟩ := hn c hc
+      refine ⟨h1, h2, ?_⟩
+      rw [deactivate_act]
+      have hck : ¬ c = k := by intro e; rw [e] at h2; exact hop k rfl h2
+      simp [hck, h3]
+    · simp only [hk]; exact hn
+  | selfControlled o0 =>
+    simp only [step1, step]
+    split
+    · exact hself o0
+    · exact hn
+  | updateTarget o0 k =>
+    simp only [step1, step]
+    split <;> exact hn
 
-/-- **controlled_by_names_active** — in every history without a direct `deactivate_control` call the
-output names an input only while that input is marked as controlling (otherwise it names `self`). -/
-theorem controlled_by_names_active (n : Nat) (ops : List Op) (hops : ∀ op ∈ ops, ∀ k, op ≠ .deactivate k) :
-    NamesActive n (exec n init ops).cb (exec n init ops).act := by
-  have hinit : SingleController n init.cb init.act := ⟨fun i _ j _ hi _ => by simp [init] at hi, fun i _ hi => by simp [init] at hi⟩
-  have gen : ∀ (ops : List Op) (s : St), (∀ op ∈ ops, ∀ k, op ≠ .deactivate k) →
-      SingleController n s.cb s.act → NamesActive n s.cb s.act →
-      NamesActive n (exec n s ops).cb (exec n s ops).act := by
+/-- **controlled_by_names_active** — in every history without a direct `deactivate_control` call on an input of
+output `o`, that output names an input only while the input is marked as controlling (otherwise it names `self`) —
+whatever happens at the other outputs. -/
+theorem controlled_by_names_active (cfg : Cfg) (o : Nat) (ops : List Op)
+    (hops : ∀ op ∈ ops, ∀ k, op = .deactivate k → cfg.outOf k ≠ o) :
+    NamesActive cfg.n cfg.outOf o ((exec cfg init ops).cb o) (exec cfg init ops).act := by
+  have gen : ∀ (ops : List Op) (s : St), (∀ op ∈ ops, ∀ k, op = .deactivate k → cfg.outOf k ≠ o) →
+      NamesActive cfg.n cfg.outOf o (s.cb o) s.act →
+      NamesActive cfg.n cfg.outOf o ((exec cfg s ops).cb o) (exec cfg s ops).act := by
     intro ops
     induction ops with
-    | nil => intro s _ _ hn; exact hn
+    | nil => intro s _ hn; exact hn
     | cons op ops ih =>
-      intro s hops h hn
-      exact ih _ (fun o ho => hops o (List.mem_cons_of_mem _ ho)) (control_step n s op h).1
-        (names_active_step n s op (hops op List.mem_cons_self) hn)
-  exact gen ops init hops hinit (by intro c hc; simp [init] at hc)
+      intro s hops hn
+      exact ih _ (fun o' ho' => hops o' (List.mem_cons_of_mem _ ho'))
+        (names_active_step cfg s op o (hops op List.mem_cons_self) hn)
+  exact gen ops init hops (by intro c hc; simp [init] at hc)
 
-/-- the recorded gap of the stronger reading: a direct `deactivate_control` call (as `frappy_psi/mercury.py:
-Loop.set_output` makes it) leaves the output naming an input that is not marked -/
+/-- two outputs: inputs 0 and 2 on output 0, input 1 on output 1 -/
+def cfg2 : Cfg := { n := 3, nout := 2, outOf := fun i => if i = 1 then 1 else 0 }
+
+/-- the gap of the stronger reading: a direct `deactivate_control` call (as `frappy_psi/mercury.py: Loop.set_output`
+makes it) leaves the output naming an input that is not marked -/
 theorem names_active_fails_after_deactivate :
-    ¬ NamesActive 2 (exec 2 init [.activate 1, .deactivate 1]).cb (exec 2 init [.activate 1, .deactivate 1]).act := by
+    ¬ NamesActive cfg2.n cfg2.outOf 0 ((exec cfg2 init [.activate 2, .deactivate 2]).cb 0)
+      (exec cfg2 init [.activate 2, .deactivate 2]).act := by
   decide
 
-/-- non-vacuity: three inputs, a hand-over chain -/
-example : (run 3 init [.writeIn 0 true, .writeIn 2 true, .updateTarget 1, .writeOut, .activate 1]).map
-    (fun s => (s.cb, (List.range 3).map s.act)) =
-    [(some 0, [true, false, false]), (some 2, [false, false, true]), (some 2, [false, false, true]),
-     (none, [false, false, false]), (some 1, [false, true, false])] := by decide
+/-- non-vacuity: hand-over on output 0 while input 1 keeps controlling output 1 -/
+example : (run cfg2 init [.writeIn 1 true, .writeIn 0 true, .writeIn 2 true, .updateTarget 0 1, .writeOut 0, .activate 0]).map
+    (fun s => ((List.range 2).map s.cb, (List.range 3).map s.act)) =
+    [([none, some 1], [false, true, false]), ([some 0, some 1], [true, true, false]),
+     ([some 2, some 1], [false, true, true]), ([some 2, some 1], [false, true, true]),
+     ([none, some 1], [false, true, false]), ([some 0, some 1], [true, true, false])] := by decide
 
-/-- the monitor rejects two marked inputs, and an output naming the wrong one -/
-example : controlOkB 3 { takeover := .no, strong := false, cb := some 0, act := [true, true, false] } = false := by decide
-example : controlOkB 3 { takeover := .byInput 1, strong := false, cb := some 0, act := [false, true, false] } = false := by decide
-example : controlOkB 3 { takeover := .byInput 1, strong := true, cb := some 1, act := [false, true, false] } = true := by decide
+/-- the monitor rejects two marked inputs of one output, an output naming the wrong one, and an operation on output 1
+that switched off the controller of output 0 (shared registry) -/
+example : controlOkB 3 2 [0, 1, 0] {
+    takeover := .no, target := none, strong := [false, false], cbB := [some 0, none],
+    actB := [true, false, true], cb := [some 0, none], act := [true, false, true] } = false := by decide
+example : controlOkB 3 2 [0, 1, 0] {
+    takeover := .byInput 2, target := some 0, strong := [false, false], cbB := [none, none],
+    actB := [false, false, false], cb := [some 0, none], act := [false, false, true] } = false := by decide
+example : controlOkB 3 2 [0, 1, 0] {
+    takeover := .byInput 1, target := some 1, strong := [true, true], cbB := [some 0, none],
+    actB := [true, false, false], cb := [some 0, some 1], act := [false, true, false] } = false := by decide
+example : controlOkB 3 2 [0, 1, 0] {
+    takeover := .byInput 1, target := some 1, strong := [true, true], cbB := [some 0, none],
+    actB := [true, false, false], cb := [some 0, some 1], act := [true, true, false] } = true := by decide
 
 end control
 
@@ -192,7 +309,8 @@ open Frappy.ExtParams
 /-- **struct_members_agree** — for every layout (combined `read_/write_<struct>` methods or per-member
 methods, any subset of members with programmer-written methods), every history of client reads and writes of
 the struct and of its members and of driver-side assignments to either, and every outcome of the driver
-bodies (any returned value, `None`, an exception — also in the middle of a struct access), at every
+bodies (any returned value, `None`, a `SECoPError` or any other exception (`ExcKind`) — also at any member position in
+the middle of a generated struct access), at every
 quiescent point the struct holds a value for every member and the member parameter shows the same value. -/
 theorem struct_members_agree (cfg : Cfg) (ops : List Op) :
     ∀ s ∈ run cfg (init cfg) ops, MembersAgree cfg.members s.struct s.mem := by
@@ -215,7 +333,7 @@ def cfgB : Cfg := { members := ["p", "i", "d"], combined := false, hasR := fun m
 through `write_<struct>` and `read_<struct>` -/
 example : (run cfgA (init cfgA) [
       .driverAssignMember "p" 9,
-      .writeMember "i" 5 .retNone (some [("p", 9), ("i", 4), ("d", 0)]) .fail]).map (fun s => (s.struct, s.mem, s.ok)) =
+      .writeMember "i" 5 .retNone (.ok [("p", 9), ("i", 4), ("d", 0)]) (.fail .value)]).map (fun s => (s.struct, s.mem, s.ok)) =
     [([("p", 9), ("i", 0), ("d", 0)], [("p", 9), ("i", 0), ("d", 0)], true),
      ([("p", 9), ("i", 4), ("d", 0)], [("p", 9), ("i", 4), ("d", 0)], true)] := by decide
 
@@ -223,7 +341,7 @@ example : (run cfgA (init cfgA) [
 which the second member fails still leaves the struct up to date with the first -/
 example : (run cfgB (init cfgB) [
       .driverAssignStruct [("p", 3), ("i", 4), ("d", 1)],
-      .readStruct none (fun m => if m = "p" then some 7 else none)]).map (fun s => (s.struct, s.mem, s.ok)) =
+      .readStruct (.fail .secop) (fun m => if m = "p" then .ok 7 else .fail .value)]).map (fun s => (s.struct, s.mem, s.ok)) =
     [([("p", 3), ("i", 4), ("d", 1)], [("p", 3), ("i", 4), ("d", 1)], true),
      ([("p", 7), ("i", 4), ("d", 1)], [("p", 7), ("i", 4), ("d", 1)], false)] := by decide
 
@@ -237,29 +355,18 @@ end struct
 section floatenum
 open Frappy.ExtParams
 
-/-- the full statement: for every label set, every start index and every history the float parameter shows the
-value of the current index after every operation, and an accepted write selected a closest label -/
-def floatenum_consistent_statement : Prop :=
-  ∀ (cfg : FCfg) (idx0 : Int), (cfg.vdict.map Prod.fst).Nodup → validIdx cfg idx0 = true →
-    ∀ (pre : List FOp) (op : FOp), FloatEnumOk cfg.vdict (frecOf cfg (fexec cfg (finit cfg idx0) pre) op)
-
-theorem finv_exec (cfg : FCfg) (ops : List FOp) (hops : ∀ op ∈ ops, isAssignFloat op = false) :
-    ∀ s, FInv cfg s → FInv cfg (fexec cfg s ops) := by
+theorem finv_exec (cfg : FCfg) (ops : List FOp) : ∀ s, FInv cfg s → FInv cfg (fexec cfg s ops) := by
   induction ops with
   | nil => intro s h; exact h
-  | cons op ops ih =>
-    intro s h
-    exact ih (fun o ho => hops o (List.mem_cons_of_mem _ ho)) _ (finv_step cfg s op h (hops op List.mem_cons_self))
+  | cons op ops ih => intro s h; exact ih _ (finv_step cfg s op h)
 
-/-- **floatenum_consistent_partial** — for every label set (any values, any index numbering, any order), every
-history of client writes of the float parameter and of the index, reads, and driver-side assignments to the
-index — with any outcome of the programmer's `read_/write_<idx>` bodies — the float parameter shows
-`valuedict[index]` after every operation, and every accepted write of the float parameter handed the driver
-an index whose value no other label is closer to.  Missing for the full statement: a driver-side assignment
-to the float parameter itself (`floatenum_consistent_fails`). -/
-theorem floatenum_consistent_partial (cfg : FCfg) (idx0 : Int) (hn : (cfg.vdict.map Prod.fst).Nodup)
-    (h0 : validIdx cfg idx0 = true) (pre : List FOp) (op : FOp)
-    (hpre : ∀ o ∈ pre, isAssignFloat o = false) (hop : isAssignFloat op = false) :
+/-- **floatenum_consistent** — for every label set (any values, any index numbering, any order, unique indices), every
+history of client writes of the float parameter and of the index, reads, and driver-side assignments to the index
+**and to the float parameter itself** — with any outcome of the programmer's `read_/write_<idx>` bodies (a value,
+`None`, a SECoP error or any other exception) — the float parameter shows `valuedict[index]` after every operation,
+and every accepted write of the float parameter handed the driver an index whose value no other label is closer to. -/
+theorem floatenum_consistent (cfg : FCfg) (idx0 : Int) (hn : (cfg.vdict.map Prod.fst).Nodup)
+    (h0 : validIdx cfg idx0 = true) (pre : List FOp) (op : FOp) :
     FloatEnumOk cfg.vdict (frecOf cfg (fexec cfg (finit cfg idx0) pre) op) := by
   have hinit : FInv cfg (finit cfg idx0) := by
     unfold validIdx at h0
@@ -267,8 +374,8 @@ theorem floatenum_consistent_partial (cfg : FCfg) (idx0 : Int) (hn : (cfg.vdict.
     cases h : cfg.vdict.lookup idx0 with
     | none => rw [h] at h0; simp at h0
     | some v => simp
-  have hs := finv_exec cfg pre hpre _ hinit
-  refine ⟨finv_step cfg _ op hs hop, ?_⟩
+  have hs := finv_exec cfg pre _ hinit
+  refine ⟨finv_step cfg _ op hs, ?_⟩
   intro x hw hok
   cases op with
   | writeFloat y w =>
@@ -284,12 +391,12 @@ theorem floatenum_consistent_partial (cfg : FCfg) (idx0 : Int) (hn : (cfg.vdict.
 
 def fcfg : FCfg := { vdict := [(0, 4), (1, 1), (2, 16)], lo := 1, hi := 16, hasR := false, hasW := true }
 
-/-- the recorded finding: `self.<name> = x` from the driver stores `x` in the float parameter and leaves the
-index alone, so the full statement fails -/
-theorem floatenum_consistent_fails : ¬ floatenum_consistent_statement := by
-  intro h
-  have := (h fcfg 0 (by decide) (by decide) [] (.driverAssignFloat 9)).1
-  exact absurd this (by unfold ShowsIndexValue; decide)
+/-- the repaired finding: `self.<name> = 9` from the driver moves the index to the closest label (4 → index 0 is at
+distance 5, 16 → index 2 at distance 7) and the float parameter shows its value -/
+example : (frun fcfg (finit fcfg 1) [.driverAssignFloat 9, .driverAssignFloat 16, .driverAssignFloat 1]).map
+    (fun s => (s.idx, s.value, s.evs)) =
+    [(0, 4, [.value 4, .idx 0, .value 4]), (2, 16, [.value 16, .idx 2, .value 16]), (1, 1, [.value 1, .idx 1, .value 1])] := by
+  decide
 
 /-- **closest_first_minimum** — the tie rule of `min(valuedict, key=…)`: the selected label is strictly closer than
 every label before it in `valuedict` order and at least as close as every label after it. -/
@@ -341,8 +448,8 @@ theorem limits_step (cfg : LCfg) (s : LSt) (op : LOp) : LimitsOk (lrecOf cfg s o
       subst hw
       simp only [lrecOf, lstep1, lstep] at hok ⊢
       by_cases hr : inRange cfg y = true
-      · by_cases hc : checkLimits cfg { s with evs := [] } y = true
-        · have hwithin : Within (limitsOf cfg s) y := within_of_check cfg { s with evs := [] } y hc
+      · by_cases hc : checkLimits cfg { s with evs := [], exc := none } y = true
+        · have hwithin : Within (limitsOf cfg s) y := within_of_check cfg { s with evs := [], exc := none } y hc
           refine ⟨hwithin, ?_⟩
           intro he
           simp only [hr, hc, Bool.not_true, Bool.false_eq_true, if_false] at hok ⊢
